@@ -57,7 +57,12 @@ func TS(ns int64) string { return time.Unix(0, ns).UTC().Format(time.RFC3339Nano
 type Container struct {
 	ID      string
 	Name    string // with leading slash, as the API returns it
+	Names   []string // when set, used instead of Name (several names / none)
 	Image   string
+	ImageID string
+	Command string
+	Created int64
+	Status  string
 	State   string
 	Labels  map[string]string
 	Log     []byte
@@ -123,12 +128,20 @@ func (f *Fake) ContainerList(_ context.Context, _ apicontainer.ListOptions) ([]t
 	}
 	out := make([]types.Container, 0, len(f.Containers))
 	for _, c := range f.Containers {
+		names := []string{c.Name}
+		if c.Names != nil {
+			names = c.Names
+		}
 		out = append(out, types.Container{
-			ID:     c.ID,
-			Names:  []string{c.Name},
-			Image:  c.Image,
-			State:  c.State,
-			Labels: c.Labels,
+			ID:      c.ID,
+			Names:   names,
+			Image:   c.Image,
+			ImageID: c.ImageID,
+			Command: c.Command,
+			Created: c.Created,
+			Status:  c.Status,
+			State:   c.State,
+			Labels:  c.Labels,
 		})
 	}
 	return out, nil
